@@ -46,6 +46,9 @@ pub struct Case {
     /// warm the regex cache (0 = never, 1 = once, 2 = twice) between insertion and the request
     #[serde(default)]
     pub cache_calls: u8,
+    /// another request (same URL and host, other header values) is served by the same router first
+    #[serde(default)]
+    pub warm_up_with_other_headers: bool,
 }
 
 // ---------------------------------------------------------------------------------------------
@@ -100,7 +103,8 @@ impl Ty {
             Ty::Uuid => same(*rng.pick(&["123e4567-e89b-12d3-a456-426614174000", "AAAAAAAA-bbbb-CCCC-dddd-EEEEEEEEEEEE"])),
             Ty::Date => same(*rng.pick(&["2020-01-31", "1999-12-01", "5-10-09"])),
             Ty::Any => {
-                let v = *rng.pick(&["x", "foo_bar", "Some Value", "CamelCaseText", "a,b;c", "\u{c9}t\u{e9} \u{e0} Paris", "stra\u{df}e"]);
+                // ('$' followed by a word character: a captured text is data, never a replacement template)
+                let v = *rng.pick(&["x", "foo_bar", "Some Value", "CamelCaseText", "a,b;c", "\u{c9}t\u{e9} \u{e0} Paris", "stra\u{df}e", "deal-$5off", "$name$1"]);
                 if in_path {
                     // the capture is taken from the sanitised URL
                     (v.to_string(), sanitize_path_literal(v))
@@ -585,6 +589,7 @@ fn random_case_unchecked(rng: &mut Rng) -> Case {
         },
         values: placed,
         cache_calls: *rng.pick(&[0u8, 0, 1, 2]),
+        warm_up_with_other_headers: rng.chance(1, 3),
     }
 }
 
@@ -602,6 +607,25 @@ pub fn check(case: &Case) -> Result<(), Failure> {
         router.cache(Some(1000));
     }
     let config = case.cfg.build();
+    // the router serves other requests before this one: same URL and host, other header values (whatever the route
+    // remembered about an earlier request must not leak into this one)
+    if case.warm_up_with_other_headers {
+        let mut decoy = case.request.clone();
+        for (_, v) in decoy.headers.iter_mut() {
+            if let Some(inner) = v.strip_prefix("v-").and_then(|x| x.strip_suffix("-end")) {
+                *v = format!("v-{}-end", if inner == "smart tv" { "x" } else { "smart tv" });
+            }
+        }
+        decoy.headers.retain(|(n, _)| !n.eq_ignore_ascii_case("x-var"));
+        decoy.headers.push(("X-Var".to_string(), "OtherHeaderValue".to_string()));
+        let q = decoy.build(&config);
+        let routes = router.match_request(&q);
+        if !routes.is_empty() {
+            let _ = Action::get_target(&routes[0], &q);
+            let mut a = Action::from_routes_rule(routes, &q, None);
+            let _ = a.filter_headers(Vec::new(), 302, false, None);
+        }
+    }
     let request = case.request.build(&config);
     let routes = router.match_request(&request);
     let matched = !routes.is_empty();
